@@ -12,7 +12,7 @@ PROPS = {
                       "and Platform::detect's CPUID logic are outside any contract (trusted)",
         "units": {"quick": [v("tree"), v("hasher"), v("spec_lemmas"), g("kernels")],
                   "thorough": [v("tree", "B"), v("tree", "C"), v("tree", "D"), v("hasher", "B"), v("hasher", "C"),
-                               v("hasher", "D"), v("xof", "C")]},
+                               v("hasher", "D"), v("xof", "C"), s("C04")]},
         "explanation": "The result of hash / Hasher / OutputReader is proved equal to a platform-independent spec function "
                        "for all Platform values and SIMD degrees; configurations differ only in constants and in which "
                        "(assumed) kernel is called.",
